@@ -623,6 +623,29 @@ func genConjOfTerms(r *Rng, kinds map[string]int) (query.Query, string) {
 	return bleve.NewConjunctionQuery(qs...), fmt.Sprintf("C %d%s", n, sb.String())
 }
 
+// hot shape: a conjunction of two frequent words and one key word (a term of a field without term vectors, held by
+// few documents: in a merged segment often by exactly one)
+func genConjWithKey(r *Rng, kinds map[string]int) (query.Query, string) {
+	kinds["conjunction-with-key-term"]++
+	n := 2 + r.Intn(2)
+	qs := make([]query.Query, 0, n+1)
+	var sb strings.Builder
+	for i := 0; i < n; i++ {
+		f := []string{"t0", "t1"}[r.Intn(2)]
+		w := c02Vocab[r.Intn(4)]
+		q := bleve.NewTermQuery(w)
+		q.SetField(f)
+		qs = append(qs, q)
+		fmt.Fprintf(&sb, " T %s %s", hs(f), hs(w))
+	}
+	k := c02Keys[r.Intn(len(c02Keys))]
+	kq := bleve.NewTermQuery(k)
+	kq.SetField("k0")
+	qs = append(qs, kq)
+	fmt.Fprintf(&sb, " T %s %s", hs("k0"), hs(k))
+	return bleve.NewConjunctionQuery(qs...), fmt.Sprintf("C %d%s", n+1, sb.String())
+}
+
 // hot shape: a conjunction or disjunction of two or three key-word terms (1-hit encoded in a merged segment)
 func genKeyTerms(r *Rng, kinds map[string]int) (query.Query, string) {
 	n := 2 + r.Intn(2)
@@ -675,7 +698,7 @@ func genQuery(r *Rng, depth int, ids []string, kinds map[string]int) (query.Quer
 		var sb strings.Builder
 		for i := range qs {
 			var t string
-			if r.Chance(15) {
+			if r.Chance(25) {
 				qs[i], t = hotBool()
 			} else {
 				qs[i], t = genQuery(r, depth-1, ids, kinds)
@@ -870,7 +893,7 @@ func (ci *c02Index) sortedLive() []c02Doc {
 }
 
 func runC02(t *Trace, r *Rng, tier string, _ []string) {
-	nIdx, nQ := 24, 60
+	nIdx, nQ := 60, 80
 	if tier == "thorough" {
 		nIdx, nQ = 150, 120
 	}
